@@ -148,6 +148,12 @@ def run(F, R, ctx):
     R.inst("C18.c", "should_visit records what it has seen", bool(sh.call_blocks(r"::(insert|contains)$")) or
            any(re.search(r"::(insert|contains)$", b["callee"]) for _, b in lib.family_calls(F, sh)),
            "should_visit no longer inserts into / tests the visited set", sh.loc(), sample=True)
+    ins = [i for i, b in sh.calls() if re.search(r"::insert$", b["callee"])]
+    cut, _ = sh.every_path_passes_from([0], sh.returns(), ins)
+    R.inst("C18.c", "should_visit records every pair it is asked about (no path bypasses the visited set)", bool(ins) and cut,
+           "RecursiveEqualityHandler::should_visit can return without inserting the pair into the visited set: shared "
+           "substructure is then compared once per path that reaches it (exponential in the depth of a value that shares "
+           "its children) and a cycle through such a path does not terminate", sh.loc(), sample=True)
     fc = F.one(r"\{impl CycleDetector\}::format_with_cycles$")
     cmpd = [e for _, _, e in fc.events("binop") if e[1] in ("Gt", "Ge", "Lt", "Le") and e[2] == "usize"]
     R.inst("C18.c", "CycleDetector::format_with_cycles bounds its depth", bool(cmpd) or bool(fc.call_blocks(r"stacker::")),
